@@ -178,6 +178,7 @@ package reader
 //@   assert[C01] before "vr.loadLastVerifyErr()" : holds(vr.prohibitVerifyFailureMu) && vr.prohibitVerifyFailure
 //@   requires vr.r != nil && vr.r.r != nil
 //@   ensures[C01] result1 == nil ==> result0 != nil && tocOf(payload(vr.r.r)) == tocDigest && vr.r.verify && old(vr.lastVerifyErr) == nil
+//@   ensures[C01] result1 == nil ==> payload(result0) == ref(vr.r)
 //@   ensures[C01] vr.lastVerifyErr == old(vr.lastVerifyErr) && (result1 == nil ==> vr.prohibitVerifyFailure)
 // readAndCache (prefetch / background walk): a chunk is committed to the cache only if its verifier accepted it, or --
 // before the TOC has been checked -- after the failure was recorded while holding the verification-mode lock with the
